@@ -2,12 +2,13 @@
 (* Strings are sequences of ranks into one fixed table of characters, in ascending Unicode scalar order
    (= UTF-8 byte order, the order str::cmp uses), mirrored in /verif/checks/chars.py:
     1 \n   2 \r   3 space  4 "   5 #   6 $   7 ,   8 -   9 0   10 9   11 :   12 =   13 A   14 Z   15 \   16 _
-    17 a   18 z   19 {   20 }   21 e-acute (U+E9)   22 arabic-indic digit three (U+663)   23 CJK ni (U+4F60)   24 grinning face (U+1F600) *)
+    17 a   18 z   19 {   20 }   21 e-acute (U+E9)   22 y-diaeresis (U+FF, its scalar value equals the separator byte the library hashes with)
+    23 arabic-indic digit three (U+663)   24 CJK ni (U+4F60)   25 grinning face (U+1F600) *)
 EXTENDS Integers, Sequences, FiniteSets
 
 NL == 1  CR == 2  SP == 3  DQ == 4  HASH == 5  DOLLAR == 6  COMMA == 7  MINUS == 8  D0 == 9  D9 == 10  COLON == 11  EQ == 12
-UA == 13  UZ == 14  BSL == 15  USC == 16  LA == 17  LZ == 18  LBR == 19  RBR == 20  EACUTE == 21  ARAB3 == 22  CJK == 23  EMOJI == 24
-AllChars == 1..24
+UA == 13  UZ == 14  BSL == 15  USC == 16  LA == 17  LZ == 18  LBR == 19  RBR == 20  EACUTE == 21  YUML == 22  ARAB3 == 23  CJK == 24  EMOJI == 25
+AllChars == 1..25
 
 \* ranks >= 1000 denote "Unicode scalar value + 1000" for characters outside the table (used when strings
 \* recorded from the implementation are brought back into the specification; their order is not meaningful)
@@ -16,7 +17,7 @@ IsAsciiDigit(c)  == c \in {D0, D9} \/ c \in 1048..1057
 \* what char::is_alphabetic / is_numeric would additionally accept
 IsUnicodeLetter(c) == IsAsciiLetter(c) \/ c \in {EACUTE, CJK}
 IsUnicodeDigit(c)  == IsAsciiDigit(c) \/ c = ARAB3
-Utf8Len(c) == IF c <= 20 THEN 1 ELSE IF c \in {21, 22} THEN 2 ELSE IF c = 23 THEN 3 ELSE 4
+Utf8Len(c) == IF c <= 20 THEN 1 ELSE IF c \in {21, 22, 23} THEN 2 ELSE IF c = 24 THEN 3 ELSE 4
 
 \* all strings over alphabet A of length <= n
 StrUpTo(A, n) == UNION {[1..k -> A] : k \in 0..n}
